@@ -105,8 +105,13 @@ def run(job, mon):
       d = off + sc * rng.normal(size=(n,) + shape)
       if const_col:
         idx = tuple(int(rng.integers(0, s)) for s in shape)
-        # exactly representable constant so that n*c/n is exact
-        d[(slice(None),) + idx] = float(rng.integers(-1000, 1001))
+        # constants of every kind: integers (n*c/n exact) and values such as
+        # 0.1, 123.456, 1e3/3 whose running sums round, so that the summed
+        # variance can come out slightly negative
+        cval = [float(rng.integers(-1000, 1001)), 0.1 * rng.integers(1, 100),
+                float(rng.uniform(-1, 1) * 10 ** rng.uniform(-3, 3)),
+                1e3 / 3, 9.81, 123.456][int(rng.integers(0, 6))]
+        d[(slice(None),) + idx] = cval
         return d, idx
       return d, None
     gen = tmap(gen_leaf, shapes)
